@@ -76,7 +76,7 @@ EXHAUSTIVE = {"quick": "flags(16) x names(20) x bases(11) = 3520 configurations 
                        "+ flags(16) x op scripts(16) x 6 name/base pairs = 1536",
               "thorough": "flags(16) x op scripts(16) x names(20) x bases(11) = 56320 configurations; not temp: 2 of the 6 (prior, head mode) "
                           "combinations for the 7 core scripts, 1 otherwise (rotating with the seed); temp: a persistent twin of "
-                          "both kinds when clean, one rotating kind otherwise: 82720 cases"}
+                          "both kinds when clean, one rotating kind otherwise; names that climb out of their directory only with the scripts clear and lazy-clear"}
 
 DEPTH = 12
 # tmpfs when there is one: rmdir/fsync on the disk-backed /tmp of this machine cost 5 ms each
@@ -154,6 +154,10 @@ def cases(tier, seed, shard, nshards):
     for fl, script, name, base in itertools.product(flags, scripts, NAMES, BASES):
         n += 1
         if n % nshards != shard:
+            continue
+        # a base/name that lexically climbs out of its directory meets the same fate under every script (the quick tier
+        # runs them all): here only the plain and the lazily opened one
+        if script not in ("clear", "lazy-clear") and os.path.normpath(os.path.join(base, name)).split(os.sep)[0] == os.pardir:
             continue
         if fl[0]:                               # temp: HeadDirPath is not used; a persistent twin may pre-exist
             if fl[1]:                           # temp and clean: with both kinds of persistent twin
